@@ -1,7 +1,7 @@
 (* C15 — every designed network yields a consistent OMS partition and spectrum map.
    Property theorems about the model Verif.Model.Oms (statements in full; proofs in Proofs/Oms.v). *)
 From Coq Require Import QArith Lia.
-From Verif Require Import Prelude Model.Spectrum Model.Oms Proofs.Oms.
+From Verif Require Import Prelude Model.Spectrum Model.Oms Proofs.Oms Gen.OmsGen Proofs.OmsGen.
 Local Open Scope Z_scope.
 
 (* ---------------------------------------------------------------- slot <-> frequency *)
@@ -399,3 +399,43 @@ Example spacing_irrelevant_nonvacuous :
   length (dedupe (map sort_bands (map (map sb_band) amps)) []) = 2%nat /\
   find_common_range_sp amps (f_ref, f_ref) = [((192000000000000 # 1), (195000000000000 # 1))].
 Proof. cbv zeta. repeat split; vm_compute; reflexivity. Qed.
+
+(* ================================================================ second tie (translator) *)
+(* the primitives below are re-translated from /repo's gnpy/topology/spectrum_assignment.py on every run
+   (harness/pygen_c15.py -> Gen/OmsGen.v) and proved equal to the hand-written model; same_res: same outcome, error
+   details aside *)
+Theorem C15_source_frequency_to_n : forall f g : Q, g_frequency_to_n f g = frequency_to_n f g.
+Proof. exact gen_frequency_to_n. Qed.
+Print Assumptions C15_source_frequency_to_n.
+Theorem C15_source_nvalue_to_frequency : forall (n : Z) (g : Q), g_nvalue_to_frequency n g = nvalue_to_frequency n g.
+Proof. exact gen_nvalue_to_frequency. Qed.
+Print Assumptions C15_source_nvalue_to_frequency.
+Theorem C15_source_Bitmap_init : forall (f_min f_max grid gbd : Q) (ex : option (list slot)),
+  Qeq_bool grid 0 = false -> same_res (g_Bitmap_init f_min f_max grid gbd ex) (mk_bitmap f_min f_max grid gbd ex).
+Proof. exact gen_Bitmap_init. Qed.
+Print Assumptions C15_source_Bitmap_init.
+Theorem C15_source_insert_left : forall (b : bitmap) (nw : list slot), same_res (g_insert_left b nw) (insert_left b nw).
+Proof. exact gen_insert_left. Qed.
+Print Assumptions C15_source_insert_left.
+Theorem C15_source_insert_right : forall (b : bitmap) (nw : list slot), same_res (g_insert_right b nw) (insert_right b nw).
+Proof. exact gen_insert_right. Qed.
+Print Assumptions C15_source_insert_right.
+Theorem C15_source_create_oms_bitmap : forall (common : list band) (f_min f_max grid : Q),
+  Qeq_bool grid 0 = false ->
+  same_res (g_create_oms_bitmap common f_min f_max grid) (create_oms_bitmap common f_min f_max grid).
+Proof. exact gen_create_oms_bitmap. Qed.
+Print Assumptions C15_source_create_oms_bitmap.
+Theorem C15_source_align_grids : forall l : list bitmap, same_res (g_align_grids l) (align_grids l).
+Proof. exact gen_align_grids. Qed.
+Print Assumptions C15_source_align_grids.
+Theorem C15_source_find_network_freq_range : forall g : graph,
+  same_res (g_find_network_freq_range (all_amp_bands g)) (find_network_freq_range g).
+Proof. exact gen_find_network_freq_range. Qed.
+Print Assumptions C15_source_find_network_freq_range.
+
+(* the translated definitions compute: the regression of the touching-bands case through the generated code *)
+Example C15_source_nonvacuous :
+  g_create_oms_bitmap [((193162500000000 # 1), (193226000000000 # 1)); ((193228000000000 # 1), (193350000000000 # 1))]
+                      f_ref (193412500000000 # 1) default_grid = Ok (rep SU 10 ++ rep SF 31 ++ rep SU 10) /\
+  g_frequency_to_n (191300000000000 # 1) default_grid = -288.
+Proof. split; vm_compute; reflexivity. Qed.
